@@ -112,12 +112,6 @@ impl<Wr: Write> XmlSerializer<Wr> {
         write_qual_name(&mut self.writer, name)
     }
 
-    #[inline(always)]
-    fn qual_attr_name(&mut self, name: &QualName) -> io::Result<()> {
-        self.find_or_insert_ns(name);
-        write_qual_name(&mut self.writer, name)
-    }
-
     fn find_uri(&self, name: &QualName) -> bool {
         let mut found = false;
         for stack in self.namespace_stack.0.iter().rev() {
@@ -147,6 +141,13 @@ impl<Wr: Write> Serializer for XmlSerializer<Wr> {
     {
         self.namespace_stack.push(NamespaceMap::empty());
 
+        // Every prefix used by the element or by one of its attributes has to be
+        // registered before the `xmlns` declarations are written below.
+        let attrs: Vec<AttrRef<'a>> = attrs.collect();
+        for (attr_name, _) in &attrs {
+            self.find_or_insert_ns(attr_name);
+        }
+
         self.writer.write_all(b"<")?;
         self.qual_name(&name)?;
         if let Some(current_namespace) = self.namespace_stack.0.last() {
@@ -169,7 +170,7 @@ impl<Wr: Write> Serializer for XmlSerializer<Wr> {
         }
         for (name, value) in attrs {
             self.writer.write_all(b" ")?;
-            self.qual_attr_name(name)?;
+            write_qual_name(&mut self.writer, name)?;
             self.writer.write_all(b"=\"")?;
             write_to_buf_escaped(&mut self.writer, value, true)?;
             self.writer.write_all(b"\"")?;
